@@ -362,20 +362,31 @@ fn gen_script(r: &mut Rng, idx: usize) -> Script {
         // renumbers every tenant's internal ids), then a filtered delete by the attacker and a census of both
         let pool2 = vec_pool();
         let mk2 = |id: u64, color: &str, r: &mut Rng| It { id, v: r.pick(&pool2).clone(), meta: vec![("color".into(), color.into())], ns: String::new() };
+        // slot order: [attacker 1,2 (to be deleted)] [attacker 6,7 "evil"] [victim 6,7] ... churn at the end
+        for id in [1u64, 2] {
+            tr.write(a, id);
+            tr.maybe_hot.insert((a, id));
+            calls.push(Call { who: Who::T(a), op: Op::Insert(mk2(id, "gone", r)), exact: true });
+        }
+        for id in [6u64, 7] {
+            tr.write(a, id);
+            tr.maybe_hot.insert((a, id));
+            calls.push(Call { who: Who::T(a), op: Op::Insert(mk2(id, "evil", r)), exact: true });
+        }
         for id in [6u64, 7] {
             tr.write(victim, id);
             tr.maybe_hot.insert((victim, id));
             calls.push(Call { who: Who::T(victim), op: Op::Insert(mk2(id, "blue", r)), exact: true });
         }
-        for id in [5u64, 8] {
+        for id in [1u64, 2] {
             tr.tombstones += 1;
             calls.push(Call { who: Who::T(a), op: Op::Delete(id, String::new()), exact: true });
         }
         for _ in 0..52 {
-            tr.write(a, 4);
-            tr.maybe_hot.insert((a, 4));
+            tr.write(a, 3);
+            tr.maybe_hot.insert((a, 3));
             tr.tombstones += 1;
-            calls.push(Call { who: Who::T(a), op: Op::Insert(mk2(4, "evil", r)), exact: true });
+            calls.push(Call { who: Who::T(a), op: Op::Insert(mk2(3, "churn", r)), exact: true });
         }
         calls.push(Call { who: Who::T(a), op: Op::BatchDeleteFilter(F::Exact("color".into(), "evil".into()), String::new()), exact: true });
         calls.push(Call { who: Who::T(a), op: Op::BulkQuery(vec![1, 2, 3, 4, 5, 6, 7, 8, 4294967295], true, String::new()), exact: true });
